@@ -43,6 +43,7 @@ type Engine struct {
 	immPrefixes []string
 	immProblems []string
 	immChecked  bool
+	immAllowed  map[*ssa.Function]bool
 	reachCache  map[string]bool
 	cbFree      map[*types.Package]bool
 	loadErrs    []string
@@ -805,6 +806,7 @@ func (e *Engine) initImmutables() {
 			}
 		}
 	}
+	e.immAllowed = allowed
 	for fn := range e.allFns {
 		if !e.inRepo(fn) || allowed[fn] {
 			continue
